@@ -69,7 +69,7 @@ def main(tier: str, seed: int) -> int:
                 'instructions and the three builders with op_verify both ways (18,900 cases); each grid point is shifted to '
                 'now = 1.7e9 and replayed through run_script with the pinned clock using the real builders, whose bytes are '
                 'also compared with the documented sequence. traces: random values up to 63 bits logged as byte strings with '
-                'the real builder bytes (30 % wrapped as an evaluated script, where the configured thresholds must still apply) and outcome; TLC runs those bytes on TapeVM and compares with the implementation and '
+                'the real builder bytes (30 % wrapped as an evaluated script, 15 % placed in an EXCEPT clause, where the configured thresholds must still apply) and outcome; TLC runs those bytes on TapeVM and compares with the implementation and '
                 'the declarative window (limb arithmetic).')
     rep.assumptions = ['the between lock is read as begin <= t < end within slack (it starts with CHECK_TIMESTAMP_VERIFY)',
                        'a negative epoch_threshold is a documented malformed-flag error']
@@ -132,8 +132,12 @@ def main(tier: str, seed: int) -> int:
                 raise
             rep.violation(f"builder {kind} raised {type(e).__name__}: {e} for a={a} b={b} vfy={vfy}", {'kind': 'builder', 'case': [kind, a, b, vfy]})
             continue
-        if rng.random() < 0.3:         # the same lock as a committed script (scripthash / taproot script path style): inside EVAL
+        wrap = rng.random()
+        if wrap < 0.3:           # the same lock as a committed script (scripthash / taproot script path style): inside EVAL
             script = push(script) + op('EVAL')
+        elif wrap < 0.45:        # ... or in the EXCEPT clause of a TRY that raised
+            from ..gen.progs import block
+            script = block('TRY_EXCEPT', op('FALSE') + op('VERIFY'), script)
         got = run_real(F, script, kind, t, now, thr)
         B = lambda n: list(n.to_bytes((n.bit_length() + 7) // 8, 'big'))
         cases.append({'kind': kind, 't': B(t), 'now': B(now), 'thr': thr, 'a': B(a), 'b': B(b), 'pad': pad, 'vfy': vfy,
